@@ -5,6 +5,9 @@ package main
 import (
 	"bytes"
 	"context"
+	"crypto/sha256"
+	"encoding/hex"
+	"encoding/json"
 	"fmt"
 	"go/types"
 	"os"
@@ -272,6 +275,7 @@ type SolveResult struct {
 	Seconds float64
 	Output  string // full output of the deciding (or last) solver
 	All     map[string]string
+	Cached  bool
 }
 
 type solverSpec struct {
@@ -321,7 +325,49 @@ func firstLine(s string) string {
 
 // solve runs the installed solvers concurrently on the query. needAgree>1 asks
 // that many solvers to report unsat before returning unsat (thorough tier).
+// Query cache: an obligation whose SMT text is byte-identical to one already
+// discharged (unsat) is not sent to the solvers again. Keyed by sha256 of the
+// query; only unsat answers are stored. Directory: $GOVC_CACHE (default
+// /verif/.qcache); GOVC_NOCACHE=1 disables it.
+func cacheDir() string {
+	if os.Getenv("GOVC_NOCACHE") == "1" {
+		return ""
+	}
+	if d := os.Getenv("GOVC_CACHE"); d != "" {
+		return d
+	}
+	return "/verif/.qcache"
+}
+
+func cacheKey(query string, needAgree int) string {
+	h := sha256.Sum256([]byte(fmt.Sprintf("agree=%d\n", needAgree) + query))
+	return hex.EncodeToString(h[:])
+}
+
 func solve(name, query string, timeoutS int, needAgree int) SolveResult {
+	cd := cacheDir()
+	var ck string
+	if cd != "" {
+		ck = filepath.Join(cd, cacheKey(query, needAgree))
+		if b, err := os.ReadFile(ck); err == nil {
+			var r SolveResult
+			if json.Unmarshal(b, &r) == nil && r.Status == "unsat" {
+				r.Cached = true
+				return r
+			}
+		}
+	}
+	r := solveUncached(name, query, timeoutS, needAgree)
+	if cd != "" && r.Status == "unsat" {
+		os.MkdirAll(cd, 0o755)
+		if b, err := json.Marshal(r); err == nil {
+			os.WriteFile(ck, b, 0o644)
+		}
+	}
+	return r
+}
+
+func solveUncached(name, query string, timeoutS int, needAgree int) SolveResult {
 	file := filepath.Join(scratch(), sanitize(name)+".smt2")
 	if err := os.WriteFile(file, []byte(query), 0o644); err != nil {
 		return SolveResult{Status: "error", Output: err.Error()}
